@@ -248,8 +248,8 @@ def make_suite(outs):
     return unittest.TestSuite(tests), tests
 
 
-def run_suite(stack, ffmode, o0, o1, o2, mode):
-    outs = [OUTCOMES[o0], OUTCOMES[o1], OUTCOMES[o2]]
+def run_suite(stack, ffmode, o0, o1, o2, mode, nt=3):
+    outs = [OUTCOMES[o0], OUTCOMES[o1], OUTCOMES[o2]][:nt]
     problems = []
     first_bad = next((i for i, o in enumerate(outs) if o in BAD), None)
     anybad = first_bad is not None
@@ -259,7 +259,7 @@ def run_suite(stack, ffmode, o0, o1, o2, mode):
         outer.startTestRun()
         suite.run(outer)
         outer.stopTestRun()
-        want = 3 if (ffmode == 0 or first_bad is None) else first_bad + 1
+        want = nt if (ffmode == 0 or first_bad is None) else first_bad + 1
         ran = [r.testsRun for r in inner]
         if any(x != want for x in ran):
             problems.append("suite dispatched %r tests, expected %d (failfast %d, outcomes %r)" % (ran, want, ffmode, outs))
@@ -285,31 +285,34 @@ def run_suite(stack, ffmode, o0, o1, o2, mode):
     if bool(code) != anybad or code == "no-exit":
         problems.append("exit status %r for outcomes %r" % (code, outs))
     m = re.search(r"Ran (\d+) tests? in", text)
-    want = 3 if (ffmode == 0 or first_bad is None) else first_bad + 1
+    want = nt if (ffmode == 0 or first_bad is None) else first_bad + 1
     if not m or int(m.group(1)) != want:
         problems.append("runner ran %r tests, expected %d" % (m and m.group(1), want))
-    if (re.search(r"^OK$", text, re.M) is not None) == anybad and want == 3:
+    if (re.search(r"^OK$", text, re.M) is not None) == anybad and want == nt:
         problems.append("summary OK/FAILED inconsistent with outcomes %r: %r" % (outs, text[-80:]))
     return {"problems": problems, "exit": code}
 
 
-def h_suite(stack: int, ffmode: int, o0: int, o1: int, o2: int, mode: int) -> bool:
+def h_suite(stack: int, ffmode: int, o0: int, o1: int, o2: int, mode: int, nt: int) -> bool:
     """
     pre: 0 <= stack < 7 and 0 <= ffmode < 3 and 0 <= o0 < 6 and 0 <= o1 < 6 and 0 <= o2 < 6 and 0 <= mode < 2
+    pre: 0 <= nt <= 3
     post: _
     """
     try:
         md = ch.sel("mode", mode, 2)
         sk = SUITE_STACKS[ch.sel("stack", stack, 7)] if md == 0 else 0
         fm = ch.sel("ffmode", ffmode, 3 if md == 0 else 2)
-        v = dict(mode=md, stack=sk, ffmode=fm, o0=ch.sel("o0", o0, 6), o1=ch.sel("o1", o1, 6), o2=ch.sel("o2", o2, 6))
+        n = ch.sel("nt", nt, 4)
+        v = dict(mode=md, stack=sk, ffmode=fm, nt=n, o0=ch.sel("o0", o0, 6) if n >= 1 else 0,
+                 o1=ch.sel("o1", o1, 6) if n >= 2 else 0, o2=ch.sel("o2", o2, 6) if n >= 3 else 0)
     except ch.Prune:
         return True
     v["multi_before"] = sk in (2, 3) and fm == 1
     v["tfr_after"] = sk == 4 and fm == 2
     if ch.excluded(v):
         return True
-    o = run_suite(sk, fm, v["o0"], v["o1"], v["o2"], md)
+    o = run_suite(sk, fm, v["o0"], v["o1"], v["o2"], md, v["nt"])
     ch.LAST.update(o)
     return ch.finish(not o["problems"], v, nontrivial=True)
 
@@ -341,7 +344,7 @@ HARNESSES = [
             describe=lambda stack, ffmode, n, s0, s1, s2, s3, s4, ad: run_history(stack, ffmode, [s0, s1, s2, s3, s4][:n], ad)),
     Harness("suite", h_suite, lambda tier: [({"mode": 0, "stack": s, "ffmode": f}, 900) for s in range(7) for f in range(3)] +
             [({"mode": 1, "ffmode": f}, 900) for f in range(2)],
-            bounds={"quick": "a unittest.TestSuite of three generated TestCases (every triple of outcomes) run against 6 result stacks x "
+            bounds={"quick": "a unittest.TestSuite of 0..3 generated TestCases (every tuple of outcomes) run against 6 result stacks x "
                              "failfast modes: number of tests dispatched; TestProgram/TestToolsTestRunner in-process (--failfast on/off): "
                              "SystemExit status, 'Ran N tests', OK/FAILED"},
             rule="every path non-trivial", twin_fix={"mode": 0, "stack": 0, "ffmode": 0},
